@@ -84,8 +84,14 @@ namespace sw { namespace universal {
 		internal::bitblock<nbits> fraction_without_hidden_bit;
 		int fbit = nbits - 1;
 		for (int i = msb - 1; i >= 0; --i) {
-			fraction_without_hidden_bit.set(fbit, w2.at(i));
-			--fbit;
+			if (fbit >= 0) {
+				fraction_without_hidden_bit.set(fbit, w2.at(i));
+				--fbit;
+			}
+			else if (w2.at(i)) {
+				// the bits that do not fit are below the rounding position of posit<nbits, es>: collect them in a sticky bit
+				fraction_without_hidden_bit.set(0);
+			}
 		}
 		internal::value<nbits> v;
 		v.set(sign, _scale, fraction_without_hidden_bit, isZero, isInf, isNan);
